@@ -638,6 +638,24 @@ package vnet
 //@   ensures [frame.locAddr] locAddr != nil ==> locAddr.Port == old(locAddr.Port) && locAddr.IP == old(locAddr.IP) && locAddr.Zone == old(locAddr.Zone)
 //@   ensures [owned] err == nil ==> fresh(ptr(r, *UDPConn).locAddr)
 
+// the exported entry points bind exactly the local address they are given (a wildcard stays a wildcard)
+//@ func (v *Net) DialUDP(network string, locAddr *net.UDPAddr, remAddr *net.UDPAddr) (r transport.UDPConn, err error)
+//@   requires v.udpConns != nil
+//@   modifies randLast, lastFind, probeN, probePort, probeFailed, v.udpConns.portMap
+//@   ensures [conn] err == nil ==> r != nil && typeis(r, *UDPConn) && ptr(r, *UDPConn) != nil && ptr(r, *UDPConn).locAddr != nil && ptr(r, *UDPConn).bound
+//@   ensures [ip] err == nil && locAddr != nil && old(locAddr.IP) != nil ==> ipStr[base(ptr(r, *UDPConn).locAddr.IP)] == ipStr[base(old(locAddr.IP))]
+//@   ensures [anyip] err == nil && (locAddr == nil || old(locAddr.IP) == nil) ==> ptr(r, *UDPConn).locAddr.IP == net.IPv4zero
+//@   ensures [port] err == nil && locAddr != nil && old(locAddr.Port) != 0 ==> ptr(r, *UDPConn).locAddr.Port == old(locAddr.Port)
+//@   ensures [frame.locAddr] locAddr != nil ==> locAddr.Port == old(locAddr.Port) && locAddr.IP == old(locAddr.IP) && locAddr.Zone == old(locAddr.Zone)
+//@ func (v *Net) ListenUDP(network string, locAddr *net.UDPAddr) (r transport.UDPConn, err error)
+//@   requires v.udpConns != nil
+//@   modifies randLast, lastFind, probeN, probePort, probeFailed, v.udpConns.portMap
+//@   ensures [conn] err == nil ==> r != nil && typeis(r, *UDPConn) && ptr(r, *UDPConn) != nil && ptr(r, *UDPConn).locAddr != nil && ptr(r, *UDPConn).bound
+//@   ensures [ip] err == nil && locAddr != nil && old(locAddr.IP) != nil ==> ipStr[base(ptr(r, *UDPConn).locAddr.IP)] == ipStr[base(old(locAddr.IP))]
+//@   ensures [anyip] err == nil && (locAddr == nil || old(locAddr.IP) == nil) ==> ptr(r, *UDPConn).locAddr.IP == net.IPv4zero
+//@   ensures [port] err == nil && locAddr != nil && old(locAddr.Port) != 0 ==> ptr(r, *UDPConn).locAddr.Port == old(locAddr.Port)
+//@   ensures [frame.locAddr] locAddr != nil ==> locAddr.Port == old(locAddr.Port) && locAddr.IP == old(locAddr.IP) && locAddr.Zone == old(locAddr.Zone)
+
 //@ func (v *Net) onClosed(addr net.Addr)
 //@   requires addr != nil && v.udpConns != nil && (addrNet[ref(addr)] == "udp" ==> typeis(addr, *net.UDPAddr) && ptr(addr, *net.UDPAddr) != nil)
 //@   modifies v.udpConns.portMap, deleteN, deleteOk
@@ -845,6 +863,6 @@ package vnet
 // (UDPConn.Close belongs to C01 as well: a refused second Close must not unbind the address a successor socket holds)
 // every function under contract in the files C01 is anchored in that can lose, duplicate or misdeliver a datagram: socket registration, routing table, NAT
 //@ property C01: chunkUDP.SourceAddr, chunkUDP.DestinationAddr, chunkUDP.UserData, chunkUDP.Network, chunkUDP.Clone, chunkUDP.setSourceAddr, chunkUDP.setDestinationAddr, Router.processChunks, Router.push, Router.onInboundChunk, Net.write, Net.onInboundChunk, UDPConn.WriteTo, UDPConn.ReadFrom, UDPConn.onInboundChunk, chunkQueue.push, chunkQueue.pop, chunkQueue.peek, udpConnMap.find, UDPConn.Close, udpConnMap.insert, udpConnMap.delete, Net.onClosed, Net._dialUDP, newUDPConn, Router.addNIC, networkAddressTranslator.translateOutbound, networkAddressTranslator.findOutboundMapping, networkAddressTranslator.allocUDPPort, networkAddressTranslator.removeMapping, networkAddressTranslator.translateInbound, newChunkUDP, chunkIP.getSourceIP, chunkIP.getDestinationIP, chunkIP.getTimestamp, chunkIP.setTimestamp, chunkIP.Tag, newChunkQueue
-//@ property C13: Router.assignIPAddress, Router.addNIC, udpConnMap.insert, udpConnMap.find, udpConnMap.delete, newUDPConn, UDPConn.onInboundChunk, UDPConn.Close, Net.onInboundChunk, Net.onClosed, Net.allocateLocalAddr, Net.assignPort, Net._dialUDP
+//@ property C13: Router.assignIPAddress, Router.addNIC, udpConnMap.insert, udpConnMap.find, udpConnMap.delete, newUDPConn, UDPConn.onInboundChunk, UDPConn.Close, Net.onInboundChunk, Net.onClosed, Net.allocateLocalAddr, Net.assignPort, Net._dialUDP, Net.DialUDP, Net.ListenUDP
 //@ property C10: newUDPConn, UDPConn.ReadFrom, UDPConn.Read, UDPConn.SetReadDeadline, UDPConn.SetDeadline
 //@ property C16: NewLossFilter, LossFilter.onInboundChunk
